@@ -35,8 +35,10 @@ func zzGenTree(b []byte, t TType, depth int, big bool) []byte {
 		var et TType
 		if depth > 0 {
 			et = zzKnownTypes[zzPick("et", 0, 10)]
+		} else if zzBool("etString") {
+			et = 11
 		} else {
-			et = zzKnownTypes[zzPick("et", 0, 6)]
+			et = 3
 		}
 		if k := zzRefFixed(et); k > 0 {
 			n := zzInt("fixedCount", 0, 1000)
@@ -54,7 +56,10 @@ func zzGenTree(b []byte, t TType, depth int, big bool) []byte {
 		if depth > 0 {
 			kt, vt = zzKnownTypes[zzPick("kt", 0, 10)], zzKnownTypes[zzPick("vt", 0, 10)]
 		} else {
-			kt, vt = zzKnownTypes[zzPick("kt", 0, 6)], zzKnownTypes[zzPick("vt", 0, 6)]
+			kt, vt = 3, 3
+			if zzBool("ktString") {
+				kt = 11
+			}
 		}
 		kk, vk := zzRefFixed(kt), zzRefFixed(vt)
 		if kk > 0 && vk > 0 {
@@ -70,13 +75,21 @@ func zzGenTree(b []byte, t TType, depth int, big bool) []byte {
 		}
 		return b
 	case 12:
-		nf := zzPick("nfields", 0, zzParam("F"))
+		maxf := zzParam("F")
+		if depth <= 0 {
+			maxf = 1
+		}
+		nf := zzPick("nfields", 0, maxf)
 		for i := 0; i < nf; i++ {
 			var ft TType
 			if depth > 0 && i == 0 {
 				ft = zzKnownTypes[zzPick("ft", 0, 10)]
-			} else {
+			} else if depth > 0 {
 				ft = zzKnownTypes[zzPick("ft", 0, 6)]
+			} else if zzBool("ftString") {
+				ft = 11
+			} else {
+				ft = 3
 			}
 			b = append(b, byte(ft), zzU8("fidhi"), zzU8("fidlo"))
 			b = zzGenTree(b, ft, depth-1, false)
@@ -157,7 +170,11 @@ func zzH_C02_wellformed() {
 		t = zzKnownTypes[tcase]
 	}
 	var b []byte
-	b = zzGenTree(b, t, zzParam("D"), big)
+	d := zzParam("D")
+	if impl == 2 || impl == 5 {
+		d = zzParam("DS") // io.Reader-backed paths: shallower trees, the fragmentation is the subject
+	}
+	b = zzGenTree(b, t, d, big)
 	want := len(b)
 	enc := append(b, zzBytes("trailing", zzInt("ntrail", 0, 3))...)
 	zzSkipAll(impl, enc, t, want, true)
